@@ -57,11 +57,16 @@ Lemma kconst_is_const c : kconst c -> is_const c = true.
 Proof. intros (o & -> & Ho). destruct o; try contradiction; reflexivity. Qed.
 Lemma kconst_is_constant c : kconst c -> is_constant c = true.
 Proof. intros (o & -> & Ho). destruct o; try contradiction; reflexivity. Qed.
-Lemma is_constant_kconst c t : okt c = true -> tc c = Some t -> is_constant c = true -> kconst c.
+(* (array values are constants too since stage 4: hence the extra hypothesis) *)
+Lemma is_constant_kconst c t : okt c = true -> tc c = Some t -> is_constant c = true -> is_array_value c = false -> kconst c.
 Proof.
-  intros O Tc C.
-  destruct (const_cases c t O Tc C) as [(b & -> & _)|[(z & -> & _)|[(n & d & -> & _)|[(v & w & -> & _)|(s & -> & _)]]]];
-    eexists; split; try reflexivity; exact Logic.I.
+  intros O Tc C A.
+  destruct (const_cases c t O Tc C) as [(b & -> & _)|[(z & -> & _)|[(n & d & -> & _)|[(v & w & -> & _)|[(s & -> & _)|(? & ? & _ & A')]]]]];
+    [| | | | |congruence]; eexists; split; try reflexivity; exact Logic.I.
+Qed.
+Lemma is_const_kconst c t : okt c = true -> tc c = Some t -> is_const c = true -> kconst c.
+Proof.
+  intros O Tc C. apply (is_constant_kconst c t); auto; destruct c as [o l]; destruct o; try discriminate C; reflexivity.
 Qed.
 
 (* ------------------------------------------------------------------ Boolean connectives *)
@@ -732,6 +737,7 @@ Proof.
       destruct o; try discriminate Eo.
       + apply (ok_node_ext _ args cs); eauto.
       + apply (ok_node_ext _ args cs); eauto.
+      + discriminate Ho.
       + eapply ok_node_pow; eauto. }
   assert (Htc' : tc (T o cs) = Some ty) by (rewrite tc_tcs, Tcs; exact Hr).
   assert (Hdiv : match o, cs with ODiv, [_; b] => is_zero b = false | _, _ => True end).
